@@ -17,6 +17,7 @@ import Cfdm.Driver.C10
 import Cfdm.Driver.C12
 import Cfdm.Driver.C17
 import Cfdm.Driver.C13
+import Cfdm.Driver.C01
 open Cfdm.Driver
 
 def step (line : String) : String :=
@@ -45,6 +46,7 @@ def step (line : String) : String :=
       | ["C12", sub] => C12.run sub kv
       | ["C17", sub] => C17.run sub kv
       | ["C13", sub] => C13.run sub kv
+      | ["C01", sub] => C01.run sub kv
       | _ => "bad-op"
 
 partial def loop (h : IO.FS.Stream) : IO Unit := do
